@@ -140,6 +140,23 @@ def walk_violations(view, envs, results):
     return viol
 
 
+def project(lines, fields, kinds):
+    """keep of the ctx lines only the context kinds / fields a property's theorems consume"""
+    if not fields and not kinds:
+        return lines
+    out = []
+    for l in lines:
+        if not l.startswith('ctx '):
+            out.append(l); continue
+        w = l.split(' ')
+        if kinds and w[2] not in kinds:
+            continue
+        if fields:
+            w = w[:4] + [f for f in w[4:] if f.partition('=')[0] in fields]
+        out.append(' '.join(w))
+    return out
+
+
 _DRV = None
 def driver():
     global _DRV
@@ -174,17 +191,21 @@ def process(item):
         res['shapes'] = sorted(S.shapes_of(toks))
         drv = driver()
         mlines = model_prog(drv, toks, '.'.join(p[1:] for p in item.get('path', ("B0",))))
-        d = corr.diff(ilines, mlines)
+        cf, ck = item.get('ctx_fields'), item.get('ctx_kinds')
+        d = corr.diff(project(ilines, cf, ck), project(mlines, cf, ck))
         res['diff'] = {k: [v[0][:5], v[1][:5], len(v[0]), len(v[1])] for k, v in d.items()}
         iv, mv = View(ilines), View(mlines)
         res['impl_err'] = iv.err; res['model_err'] = mv.err
         res['nblocks'] = len(iv.fblocks)
         res['paths_impl'] = {k: (len(v) if v is not None else -1) for k, v in iv.paths.items()}
         nenv = item.get('nenv', 0)
-        if nenv and (iv.analysed or mv.analysed):
+        if (nenv or item.get('envs')) and (iv.analysed or mv.analysed):
             rng = random.Random(f"env/{item.get('seed', 0)}/{name}")
             info = info_from_toks(toks)
-            envs = list(O.draw_envs(info, rng, nenv))
+            if item.get('envs'):
+                envs = [(e['size'], e['self'], {int(i): m for i, m in e['txns'].items()}) for e in item['envs']]
+            else:
+                envs = list(O.draw_envs(info, rng, nenv))
             if drv.load(toks) != 'semprog ok':
                 res['status'] = 'model-semprog-error'; return res
             rr = [O.parse_res(l) for l in drv.run_many([O.env_line(j, item.get('fuel', 4000), s, i, t) for j, (s, i, t) in enumerate(envs)])]
